@@ -7,13 +7,14 @@ Theorems about the model of the two error translators (`Model/ErrMap.lean`): the
 decision and proxy services and the Envoy gRPC interceptor, and about the error path of the request contexts.
 They quantify over every error value (any nesting of chains, joins and wraps, any mix of kinds, redirects and
 foreign errors), every configuration, every `Accept` header.  The model is tied to the source by `c12_gen_*`
-(tables regenerated from the working tree on every run) and by the correspondence run against the real handlers
+(tables derived on every run from probes of the running handlers, request contexts and services) and by the
+correspondence run against the real handlers
 and the assembled services.
 -/
 namespace Heimdall.Props.C12
 open Heimdall Heimdall.ErrMap
 
-/-! ## the tie: what the source says today is what the theorems are about -/
+/-! ## the tie: what the running code exhibits today is what the theorems are about -/
 
 /-- the `switch`, default statuses, option guards, media preference and fallback of the HTTP error handler -/
 theorem c12_gen_http : Gen.http = ErrMap.http := by decide
